@@ -9,7 +9,7 @@ def groups(tier):
                clause='gf_div(a,b)*b == a for b != 0; b == 0 raises invalid_argument'),
          Group('gf.field', 'shamir', 'C10/gf.c', entry='h_field', unwind=9, kind='constant-unwind', bound='8-bit operands',
                clause='the specification product is commutative, has identity 1 and no zero divisors')]
-    G += [Group('split.indices.n<=16', 'shamir', 'C10/gf.c', entry='h_split_indices', defines=['N_MAX=16', 'CXX_RESERVE_CONST_STORAGE'], unwind=18, unwind_by={'crypto__build_exp_table': 513, 'crypto__build_log_table': 257, 'crypto__Shamir__split#1': 33}, kind='bounded',
+    G += [Group('split.indices.n<=16', 'shamir_b', 'C10/gf.c', entry='h_split_indices', defines=['N_MAX=16', 'SHAMIR_UNIT_B'], unwind=18, unwind_by={'crypto__build_exp_table': 513, 'crypto__build_log_table': 257, 'crypto__Shamir__split#1': 33}, kind='bounded',
                 bound='share_count <= 16, threshold 1', timeout=600,
                 clause='split terminates and yields n shares with distinct non-zero indices 1..n'),
           Group('split.contract', 'shamir', 'C10/gf.c', entry='h_split_contract', enforce='crypto__Shamir__split', loop_contracts=True,
